@@ -18,6 +18,7 @@ import (
 	"path/filepath"
 	"regexp"
 	"runtime"
+	"strconv"
 
 	"github.com/bluekeyes/go-gitdiff/gitdiff"
 	"github.com/rogpeppe/go-internal/lockedfile"
@@ -154,12 +155,15 @@ func cachePath(cacheDir string) (string, error) {
 	return filepath.Join(cacheDir, "link"+goExe), nil
 }
 
-func getCurrentVersion(goVersion, patchesVer string) string {
+func getCurrentVersion(goVersion, patchesVer string, linkerSize int64) string {
 	// Note that we assume that if a Go toolchain reports itself as e.g. go1.24.1,
 	// it really is that upstream Go version with no alterations or edits.
 	// If any modifications are made, it should report itself as e.g. go1.24.1-corp.
 	// The alternative would be to use the content ID hash of the cmd/link binary.
-	return goVersion + " " + patchesVer + "\n"
+	//
+	// The size of the built linker is included so that a missing, empty or
+	// truncated binary, such as after an interrupted build, is rebuilt.
+	return goVersion + " " + patchesVer + " " + strconv.FormatInt(linkerSize, 10) + "\n"
 }
 
 const versionExt = ".version"
@@ -173,13 +177,21 @@ func checkVersion(linkerPath, goVersion, patchesVer string) (bool, error) {
 	if err != nil {
 		return false, err
 	}
+	info, err := os.Stat(linkerPath)
+	if err != nil || info.IsDir() {
+		return false, nil
+	}
 
-	return string(version) == getCurrentVersion(goVersion, patchesVer), nil
+	return string(version) == getCurrentVersion(goVersion, patchesVer, info.Size()), nil
 }
 
 func writeVersion(linkerPath, goVersion, patchesVer string) error {
+	info, err := os.Stat(linkerPath)
+	if err != nil {
+		return err
+	}
 	versionPath := linkerPath + versionExt
-	return os.WriteFile(versionPath, []byte(getCurrentVersion(goVersion, patchesVer)), 0o777)
+	return os.WriteFile(versionPath, []byte(getCurrentVersion(goVersion, patchesVer, info.Size())), 0o777)
 }
 
 func buildLinker(goRoot, workingDir string, overlay map[string]string, outputLinkPath string) error {
@@ -250,6 +262,16 @@ func PatchLinker(goRoot, goVersion, cacheDir, tempDir string) (string, func(), e
 	if isCorrectVer && fileExists(outputLinkPath) {
 		successBuild = true
 		return outputLinkPath, unlock, nil
+	}
+
+	// Drop any version file before the linker binary is rewritten, so that
+	// an interrupted build never leaves a partial binary which looks valid.
+	// Drop the old binary too, as "go build -o" leaves a damaged file alone
+	// as long as the build ID at its start still looks up to date.
+	for _, path := range []string{outputLinkPath + versionExt, outputLinkPath} {
+		if err := os.Remove(path); err != nil && !os.IsNotExist(err) {
+			return "", nil, err
+		}
 	}
 
 	srcDir := filepath.Join(goRoot, "src")
